@@ -41,6 +41,21 @@ func runC07() {
 	for i := lo; i < hi; i++ {
 		runHistory(c, int64(1_000_000+i), true)
 	}
+	// file backend: counter in <coreWorkingDir>/runcounter.txt (sets viper coreWorkingDir)
+	nFile := 60
+	if c.Tier == "thorough" {
+		nFile = 1200
+	}
+	lo, hi = c.Slice(nFile)
+	for i := lo; i < hi; i++ {
+		runFileHistory(c, int64(i))
+	}
+	if os.Getenv("VERIF_C07_FILE_CONCURRENT") != "" {
+		lo, hi = c.Slice(nFile / 3)
+		for i := lo; i < hi; i++ {
+			runFileConcurrent(c, int64(i))
+		}
+	}
 	// START_ACTIVITY side last: it installs process-wide singletons (viper, apricot.Instance).
 	nSeq := 24
 	if c.Tier == "thorough" {
